@@ -11,6 +11,12 @@
 
 #include "ParameterFile.hpp"
 #include "PhotonSourceDistributionFactory.hpp"
+#include "../detsim/fsim.hpp"
+#include <sys/wait.h>
+#include <sys/syscall.h>
+#include <sstream>
+#include <unistd.h>
+#include <dirent.h>
 #include "AlveliusTurbulenceForcing.hpp"
 #include "HydroMaskFactory.hpp"
 #include "LiveOutputManager.hpp"
@@ -339,6 +345,20 @@ public:
         }
       }
     }
+    if (prop == "C14") {
+      // system level: the process dies at a numbered file operation of a
+      // restart dump; >= 1 backup is the property's premise
+      c.threads = 1;
+      c.steps = (int)r.range(2, 5);
+      c.dump_every_step = true;
+      c.backups = (int)r.range(1, 3);
+      c.mask = r.chance(0.2);
+      c.turbulence = r.chance(0.2);
+      c.source_type = (int)r.below(5);
+      c.crash_frac = r.uniform(0., 1.);
+      c.crash_variant = (int)r.below(3);
+      c.crash_torn = r.uniform(0., 1.);
+    }
     if (prop == "C01") {
       // the radiation step of the RHD driver (a copy of the photon loop)
       c.radiation = true;
@@ -372,12 +392,15 @@ public:
   }
 
   Outcome execute_c09(const Cfg &c, const Json &cj);
+  Outcome execute_c14(const Cfg &c);
 
   Outcome execute(const Json &cj) {
     Outcome out;
     Cfg c = Cfg::from_json(cj);
     if (prop == "C09")
       return execute_c09(c, cj);
+    if (prop == "C14")
+      return execute_c14(c);
     const std::string dir = scratch_dir();
     const std::string pf = c.write_files(dir);
     scrub_memory(0xA5);
@@ -600,6 +623,19 @@ public:
              "writer, restart dumps every step and a stop + restart after the "
              "first step; stack and heap pre-filled with 0xA5; oracle: normal "
              "return, no sanitizer report / signal / abort";
+    else if (prop == "C14")
+      what = "system-level part of C14: an uninterrupted run A (dump after "
+             "every step, 1-3 backups) numbers every file-system operation "
+             "on the restart files (open, write, close, rename; libc entry "
+             "points defined in the harness); the same run is repeated in a "
+             "forked child that dies before / after / in the middle of "
+             "(torn write) one seeded operation; the surviving restart.dump "
+             "and restart.<i>.back files are compared byte for byte with A's "
+             "complete dumps: when the death falls into the dump after step "
+             "s >= 2, a complete dump of step s-1 or s must exist, every "
+             "backup file must be a complete dump, and a run restarted (in "
+             "another child) from the newest complete file must finish and "
+             "repeat A's remaining steps bit for bit";
     else if (prop == "C09")
       what = "restart experiments, one simulated thread: an uninterrupted run "
              "A with a dump after every step and a per-step digest (FNV-1a "
@@ -924,6 +960,391 @@ Outcome ERhdEngine::execute_c09(const Cfg &c, const Json &cj) {
   sig["inexact_inverse_cell_size"] = nondyadic;
   out.signature = sig;
   (void)cj;
+  return out;
+}
+
+
+// ---------------------------------------------------------------- C14 ------
+// System-level crash experiment: see describe().
+Outcome ERhdEngine::execute_c14(const Cfg &c) {
+  Outcome out;
+  const std::string dir = scratch_dir();
+  const std::string pf = c.write_files(dir);
+  const int N = c.steps;
+  std::string vclass, message;
+  auto fail = [&](const std::string &cl, const std::string &m) {
+    if (vclass.empty()) {
+      vclass = cl;
+      message = m;
+    }
+  };
+  uint64_t hash = FNV_INIT;
+  std::map< std::string, long long > st;
+  clock_enable(true);
+  clock_set(1.7e9);
+  auto remove_restart_files = [&]() {
+    DIR *dp = opendir(dir.c_str());
+    if (!dp)
+      return;
+    std::vector< std::string > names;
+    while (struct dirent *e = readdir(dp)) {
+      std::string n = e->d_name;
+      if (n.compare(0, 8, "restart.") == 0)
+        names.push_back(n);
+    }
+    closedir(dp);
+    for (auto &n : names)
+      unlink((dir + "/" + n).c_str());
+  };
+  auto restart_files = [&]() {
+    std::map< std::string, std::string > m;
+    DIR *dp = opendir(dir.c_str());
+    if (!dp)
+      return m;
+    while (struct dirent *e = readdir(dp)) {
+      std::string n = e->d_name;
+      if (n.compare(0, 8, "restart.") == 0)
+        m[n] = slurp(dir + "/" + n);
+    }
+    closedir(dp);
+    return m;
+  };
+
+  // one run of do_simulation in this process image (worker or forked child)
+  struct RunResult {
+    bool finished = false;
+    int rc = -1;
+    std::vector< Ledger::StepRecord > history;
+    std::map< int, std::string > dumps; // complete dump after step j
+    RunStats rs;
+    bool ledger_failed = false;
+  };
+  auto run = [&](const std::vector< std::string > &extra, bool keep_dumps) {
+    RunResult rr;
+    Ledger L;
+    L.lay.init(c);
+    L.yield_at_task_begin = false;
+    int last_step = 0;
+    L.on_step_begin = [&](Ledger &l) {
+      if (keep_dumps && last_step > 0)
+        rr.dumps[last_step] = slurp(dir + "/restart.dump");
+      (void)l;
+    };
+    L.on_step_end = [&](Ledger &l) {
+      last_step = l.step;
+      fsim::set_tag(l.step);
+      clock_advance(1.);
+    };
+    run_begin(c.sched, &L);
+    scrub_memory(0xA5);
+    rr.finished = guarded([&]() { rr.rc = run_rhd(pf, 1, extra); });
+    rr.rs = run_end();
+    if (keep_dumps && last_step > 0 && rr.finished)
+      rr.dumps[last_step] = slurp(dir + "/restart.dump");
+    rr.history = L.history;
+    rr.ledger_failed = L.failed;
+    if (L.failed && getenv("EC14_DEBUG"))
+      fprintf(stderr, "EC14 ledger: %s: %s\n", L.violation.vclass.c_str(),
+              L.violation.message.c_str());
+    return rr;
+  };
+
+  if (getenv("EC14_DEBUG"))
+    fprintf(stderr, "EC14 dir %s\n", dir.c_str());
+  // ---- A: uninterrupted, numbering the file operations ----
+  remove_restart_files();
+  fsim::set_filter("restart.");
+  fsim::set_tag(0);
+  fsim::arm(-1, 0, 0.5);
+  RunResult A = run({"--number-of-steps", std::to_string(N)}, true);
+  fsim::disarm();
+  const std::vector< fsim::Op > oplog = fsim::log();
+  hash = fnv1a(hash, A.rs.hash);
+  if (!A.finished || A.rc != 0 || A.ledger_failed || A.history.empty() ||
+      oplog.empty()) {
+    out.notes.push_back("uninterrupted run did not complete cleanly (decided "
+                        "by other properties)");
+    out.restart_worker = !A.finished;
+    out.hash = hash;
+    out.stats = Json::object();
+    out.signature = Json::object();
+    clock_enable(false);
+    return out;
+  }
+  const int NA = (int)A.history.size();
+  const long nops = (long)oplog.size();
+  long k = (long)(c.crash_frac * (double)nops);
+  if (k >= nops)
+    k = nops - 1;
+  const fsim::Op &op = oplog[(size_t)k];
+  const int s = op.tag; // the death falls into the dump written after step s
+  st["file_operations_numbered"] = nops;
+  st[std::string("death_at_") + op.kind] = 1;
+  st[sfmt("death_variant_%d", c.crash_variant)] = 1;
+  st[sfmt("backups_%d", c.backups)] = 1;
+  // which complete dump does a byte string equal? (0 = none)
+  auto which_dump = [&](const std::string &bytes) {
+    for (auto &kv : A.dumps) {
+      if (kv.second.size() != bytes.size())
+        continue;
+      size_t first, last;
+      dump_diff(kv.second, bytes, first, last);
+      if (first > last)
+        return kv.first;
+    }
+    return 0;
+  };
+
+  // ---- the same run in a child that dies at operation k ----
+  remove_restart_files();
+  fflush(stdout);
+  fflush(stderr);
+  pid_t pid = fork();
+  if (pid == 0) {
+    clock_set(1.7e9);
+    fsim::set_tag(0);
+    fsim::arm(k, c.crash_variant, c.crash_torn);
+    RunResult C = run({"--number-of-steps", std::to_string(N)}, false);
+    // not reached when the death point is hit
+    syscall(SYS_exit_group, C.finished ? 3 : 4);
+  }
+  int status = 0;
+  waitpid(pid, &status, 0);
+  if (!(WIFEXITED(status) && WEXITSTATUS(status) == 137)) {
+    out.notes.push_back(sfmt("crash child did not die at the chosen file "
+                             "operation (wait status 0x%x): inconclusive",
+                             status));
+    out.hash = hash;
+    out.stats = Json::object();
+    out.signature = Json::object();
+    clock_enable(false);
+    return out;
+  }
+  ++st["process_deaths"];
+
+  // ---- what is on disk ----
+  std::map< std::string, std::string > files = restart_files();
+  if (getenv("EC14_DEBUG")) {
+    for (auto &kv : A.dumps)
+      fprintf(stderr, "EC14 A dump %d: %zu bytes\n", kv.first, kv.second.size());
+    for (auto &kv : files)
+      fprintf(stderr, "EC14 file %s: %zu bytes\n", kv.first.c_str(), kv.second.size());
+    for (auto &o : oplog)
+      fprintf(stderr, "EC14 op %ld %s %s %ld tag %d\n", o.index, o.kind.c_str(), o.path.c_str(), o.bytes, o.tag);
+    for (auto &kv : files) {
+      std::ofstream o(dir + "/dbg_" + kv.first, std::ios::binary);
+      o << kv.second;
+    }
+    for (auto &kv : A.dumps) {
+      std::ofstream o(dir + "/dbg_A_" + std::to_string(kv.first), std::ios::binary);
+      o << kv.second;
+    }
+  }
+  std::string listing;
+  int best = 0;
+  std::string best_name;
+  for (auto &kv : files) {
+    const int j = which_dump(kv.second);
+    listing += sfmt("%s%s=%s", listing.empty() ? "" : " ", kv.first.c_str(),
+                    j ? sfmt("step %d", j).c_str()
+                      : sfmt("incomplete (%zu bytes)", kv.second.size()).c_str());
+    hash = fnv1a(hash, (uint64_t)j * 131u + kv.first.size());
+    if (j > best) {
+      best = j;
+      best_name = kv.first;
+    }
+    if (j == 0 && kv.first != "restart.dump")
+      fail("backup-corrupted",
+           sfmt("process died %s file operation %ld (%s %s, dump after step "
+                "%d, %d backups): backup file %s is not a complete dump; "
+                "directory: %s",
+                c.crash_variant == 0 ? "before" : c.crash_variant == 1 ? "after" : "in the middle of",
+                k, op.kind.c_str(), op.path.c_str(), s, c.backups,
+                kv.first.c_str(), listing.c_str()));
+  }
+  const char *vn = c.crash_variant == 0   ? "before"
+                   : c.crash_variant == 1 ? "after"
+                                          : "in the middle of";
+  if (s >= 2) {
+    ++st["deaths_with_a_previous_dump"];
+    if (best < s - 1)
+      fail("no-usable-dump",
+           sfmt("process died %s file operation %ld (%s %s) of the dump "
+                "after step %d with %d backups configured: no complete dump "
+                "of step %d or %d is left; directory: %s",
+                vn, k, op.kind.c_str(), op.path.c_str(), s, c.backups, s - 1,
+                s, listing.c_str()));
+  }
+
+  // ---- restart from the newest complete file, in a child ----
+  if (vclass.empty() && best > 0 && best < NA) {
+    const std::string rdir = dir + "/after_crash";
+    mkdir(rdir.c_str(), 0700);
+    {
+      std::ofstream o(rdir + "/restart.dump", std::ios::binary);
+      o << files[best_name];
+    }
+    int fds[2];
+    if (pipe(fds) == 0) {
+      fflush(stdout);
+      fflush(stderr);
+      pid_t rp = fork();
+      if (rp == 0) {
+        close(fds[0]);
+        alarm(120);
+        clock_set(1.7e9);
+        RunResult R = run({"--restart", rdir, "--number-of-steps",
+                           std::to_string(N)},
+                          false);
+        std::string msg = sfmt("%d %d %zu\n", R.finished ? 1 : 0, R.rc,
+                               R.history.size());
+        for (auto &h : R.history)
+          msg += sfmt("%d %016llx %a %a\n", h.step,
+                      (unsigned long long)h.digest, h.actual, h.time);
+        if (write(fds[1], msg.data(), msg.size()) < 0) {
+        }
+        syscall(SYS_exit_group, 0);
+      }
+      close(fds[1]);
+      std::string got;
+      char buf[4096];
+      ssize_t n;
+      while ((n = read(fds[0], buf, sizeof buf)) > 0)
+        got.append(buf, (size_t)n);
+      close(fds[0]);
+      int rstatus = 0;
+      waitpid(rp, &rstatus, 0);
+      ++st["restarts_after_death"];
+      std::istringstream is(got);
+      int fin = 0, rc = -1;
+      size_t nh = 0;
+      is >> fin >> rc >> nh;
+      if (!(WIFEXITED(rstatus) && WEXITSTATUS(rstatus) == 0) || !fin ||
+          rc != 0) {
+        fail("restart-after-crash",
+             sfmt("process died %s file operation %ld (%s) of the dump after "
+                  "step %d; the run restarted from %s (complete dump of step "
+                  "%d) did not finish (wait status 0x%x, finished %d, "
+                  "returned %d)",
+                  vn, k, op.kind.c_str(), s, best_name.c_str(), best, rstatus,
+                  fin, rc));
+      } else {
+        int expect = best + 1;
+        for (size_t i = 0; i < nh && vclass.empty(); ++i) {
+          int step = 0;
+          unsigned long long dg = 0;
+          double actual = 0., time = 0.;
+          std::string a1, a2;
+          is >> step >> std::hex >> dg >> std::dec >> a1 >> a2;
+          actual = strtod(a1.c_str(), nullptr);
+          time = strtod(a2.c_str(), nullptr);
+          const Ledger::StepRecord *a = nullptr;
+          for (auto &h : A.history)
+            if (h.step == step)
+              a = &h;
+          ++st["steps_compared_after_death"];
+          if (step != expect || !a || a->digest != dg || a->actual != actual ||
+              a->time != time) {
+            fail("restart-after-crash",
+                 sfmt("process died %s file operation %ld of the dump after "
+                      "step %d; the run restarted from %s (complete dump of "
+                      "step %d) executed step %d (expected %d) with digest "
+                      "%016llx, the uninterrupted run has %016llx",
+                      vn, k, s, best_name.c_str(), best, step, expect, dg,
+                      a ? (unsigned long long)a->digest : 0ull));
+          }
+          hash = fnv1a(hash, dg);
+          ++expect;
+        }
+        if (vclass.empty() && expect != NA + 1)
+          fail("restart-after-crash",
+               sfmt("run restarted from %s (complete dump of step %d) stopped "
+                    "after step %d, the uninterrupted run has %d steps",
+                    best_name.c_str(), best, expect - 1, NA));
+      }
+    }
+  }
+  // ---- second death: the restarted process dies during ITS first dump ----
+  // The user restarts in place (--restart <output folder>, the default
+  // work flow): restart.dump is the file the new process was started from,
+  // i.e. the dump of the previous state when that process takes its first
+  // dump.
+  if (vclass.empty() && best > 0 && best < NA) {
+    // put back what the first death left behind (the fault-free restart
+    // above wrote its own dumps into the folder)
+    remove_restart_files();
+    for (auto &kv : files) {
+      std::ofstream o(dir + "/" + kv.first, std::ios::binary);
+      o << kv.second;
+    }
+    if (best_name != "restart.dump") {
+      // what a user does after a death in the middle of a dump
+      std::ofstream o(dir + "/restart.dump", std::ios::binary);
+      o << files[best_name];
+      ++st["restart_in_place_from_backup"];
+    } else {
+      ++st["restart_in_place_from_main_dump"];
+    }
+    long first_dump_ops = 0;
+    for (auto &o : oplog)
+      if (o.tag == 1)
+        ++first_dump_ops;
+    Rng r2(mix64((uint64_t)c.seed, 0xc14));
+    const long k2 = (long)r2.below((uint64_t)std::max(1l, first_dump_ops));
+    const int variant2 = (int)r2.below(3);
+    fflush(stdout);
+    fflush(stderr);
+    pid_t p2 = fork();
+    if (p2 == 0) {
+      clock_set(1.7e9);
+      fsim::set_tag(0);
+      fsim::arm(k2, variant2, c.crash_torn);
+      RunResult C = run({"--restart", dir, "--number-of-steps",
+                         std::to_string(N)},
+                        false);
+      syscall(SYS_exit_group, C.finished ? 3 : 4);
+    }
+    int st2 = 0;
+    waitpid(p2, &st2, 0);
+    if (WIFEXITED(st2) && WEXITSTATUS(st2) == 137) {
+      ++st["process_deaths_after_restart"];
+      std::map< std::string, std::string > f2 = restart_files();
+      std::string l2;
+      int best2 = 0;
+      for (auto &kv : f2) {
+        const int j = which_dump(kv.second);
+        l2 += sfmt("%s%s=%s", l2.empty() ? "" : " ", kv.first.c_str(),
+                   j ? sfmt("step %d", j).c_str()
+                     : sfmt("incomplete (%zu bytes)", kv.second.size()).c_str());
+        hash = fnv1a(hash, (uint64_t)j * 137u + kv.first.size());
+        best2 = std::max(best2, j);
+      }
+      if (best2 < best)
+        fail("no-usable-dump",
+             sfmt("a run restarted in place from the complete dump of step %d "
+                  "(%d backups configured) died %s file operation %ld of its "
+                  "first dump: no complete dump of step %d or later is left; "
+                  "directory before the restart: %s; afterwards: %s",
+                  best, c.backups,
+                  variant2 == 0   ? "before"
+                  : variant2 == 1 ? "after"
+                                  : "in the middle of",
+                  k2, best, listing.c_str(), l2.c_str()));
+    } else {
+      ++st["second_death_not_reached"];
+    }
+  }
+  clock_enable(false);
+  out.vclass = vclass;
+  out.message = message;
+  out.hash = hash;
+  out.nontrivial = s >= 2;
+  Json sj = Json::object();
+  for (auto &kv : st)
+    sj[kv.first] = kv.second;
+  sj["hydro_steps_uninterrupted"] = NA;
+  out.stats = sj;
+  out.signature = Json::object();
   return out;
 }
 
